@@ -1244,6 +1244,195 @@ def _run_posts(cfg) -> Dict[str, Any]:
         J.wire(w, "wire-bytes", kind, exp, ctx)
     return {"outcome": f"posts:{transport}", "violations": J.viol, "counters": J.cnt, "emitter": J.emitter, "wire_digest": J.h.hexdigest()}
 
+# ---------------------------------------------------------------------------
+# (d''') the same object handed to the stdio write stream again after it was changed
+# ---------------------------------------------------------------------------
+def _resend_cases() -> List[Dict[str, Any]]:
+    """Each case: how to build object A (and B), and the mutations applied between sends."""
+    muts = {
+        "request": [("id-value", "id", 8), ("id-type", "id", "7"), ("method", "method", "other/method"),
+                    ("params-member", "params", {"a": 1, "b": None}), ("params-removed", "params", None)],
+        "notification": [("method", "method", "other/method"), ("params-member", "params", {"a": 1, "b": None})],
+        "result": [("id-value", "id", 8), ("id-type", "id", "7"), ("result", "result", {"changed": [None]})],
+        "error": [("id-value", "id", 8), ("error", "error", {"code": -32001, "message": "changed"})],
+    }
+    out = []
+    for carrier in ("typed", "unified", "dict"):
+        for kind, ms in muts.items():
+            for name, member, value in ms:
+                for seq in ("A,A'", "A,B,A'", "A,A,A'"):
+                    out.append({"carrier": carrier, "kind": kind, "mutation": name, "member": member, "value": value, "seq": seq})
+    return out
+
+
+def _resend_build(carrier: str, kind: str, rid: Any):
+    from chuk_mcp.protocol.messages import json_rpc_message as jm
+
+    p = {"a": 0, "n": None}
+    if carrier == "dict":
+        base = {"request": {"jsonrpc": "2.0", "id": rid, "method": "tools/call", "params": p},
+                "notification": {"jsonrpc": "2.0", "method": "tools/call", "params": p},
+                "result": {"jsonrpc": "2.0", "id": rid, "result": {"r": 0}},
+                "error": {"jsonrpc": "2.0", "id": rid, "error": {"code": -32000, "message": "m"}}}[kind]
+        return copy.deepcopy(base)
+    J_ = jm.JSONRPCMessage if carrier == "unified" else jm
+    if kind == "request":
+        return J_.create_request("tools/call", copy.deepcopy(p), id=rid)
+    if kind == "notification":
+        return J_.create_notification("tools/call", copy.deepcopy(p))
+    if kind == "result":
+        return J_.create_response(rid, {"r": 0})
+    return J_.create_error_response(rid, -32000, "m")
+
+
+def _state_of(obj: Any) -> Dict[str, Any]:
+    w = jnorm(obj if isinstance(obj, dict) else obj.model_dump(exclude_none=True))
+    return {k: v for k, v in w.items() if v is not None or k == "result"}
+
+
+def _run_resend(cfg) -> Dict[str, Any]:
+    from chuk_mcp.transports.stdio.stdio_client import StdioClient
+
+    J = Judge("stdio:same-object-sent-again")
+    cases = _resend_cases()[cfg["lo"]:cfg["hi"]]
+    loop = new_loop(horizon=60)
+    q = seams.Quiescence(loop)
+    proc = seams.FakeProcess()
+    record: List[tuple] = []
+
+    async def main():
+        with seams.patched_open_process(lambda cmd, kw: proc):
+            async with StdioClient(seams.stdio_params()) as client:
+                _r, write = client.get_streams()
+                for case in cases:
+                    a = _resend_build(case["carrier"], case["kind"], 7)
+                    b = _resend_build(case["carrier"], "notification" if case["kind"] != "notification" else "request", 99)
+                    steps = []
+                    for tok in case["seq"].split(","):
+                        obj = b if tok == "B" else a
+                        if tok == "A'":
+                            try:
+                                if isinstance(a, dict):
+                                    if case["value"] is None:
+                                        a.pop(case["member"], None)
+                                    else:
+                                        a[case["member"]] = copy.deepcopy(case["value"])
+                                else:
+                                    setattr(a, case["member"], copy.deepcopy(case["value"]))
+                            except Exception as e:  # noqa: BLE001
+                                steps.append(("mutation-refused", type(e).__name__, None, None))
+                                break
+                        want = _state_of(obj)
+                        n0 = len(proc.stdin.sends)
+                        await write.send(obj)
+                        await q.settle()
+                        steps.append((tok, want, n0, len(proc.stdin.sends)))
+                    record.append((case, steps))
+
+    status, val = loop.run_main(main())
+    errors = loop.collect_errors()
+    loop.abandon()
+    if status != "ok":
+        raise core.HarnessError(f"stdio harness did not finish: {status} {val!r}")
+    lines = list(proc.stdin.sends)
+    outs = set()
+    for case, steps in record:
+        J.count("cases")
+        label = f"{case['carrier']} {case['kind']}, sequence {case['seq']}, A' = A with {case['mutation']} changed to {_show(case['value'])}"
+        for tok, want, n0, n1 in steps:
+            if tok == "mutation-refused":
+                J.count("mutation-refused-by-the-model:" + str(want))
+                outs.add("refused")
+                continue
+            ctx = f"send #{tok} of: {label}"
+            if n1 - n0 != 1:
+                J.bad("stdio-line-count", f"{n1 - n0} lines for one message; {ctx}", lines=min(n1 - n0, 2))
+                continue
+            try:
+                w = json.loads(lines[n0].decode("utf-8"))
+            except Exception as e:  # noqa: BLE001
+                J.bad("stdio-not-json", f"{lines[n0][:100]!r}: {e!r}; {ctx}")
+                continue
+            J.count("emitted")
+            exp = {k: want.get(k, _ABSENT) for k in ("id", "method", "params", "result", "error")}
+            before = len(J.viol)
+            J.wire(w, "stdin-bytes", None, exp, ctx)
+            for v in J.viol[before:]:
+                if v["sig"].get("class") == "payload-altered":
+                    v["sig"] = {**v["sig"], "scenario": "object-changed-between-sends", "send": tok, "mutation": case["mutation"]}
+            outs.add("sent")
+    if errors:
+        J.bad("loop-error", f"{errors[:2]}")
+    tags = sorted({f"{c['carrier']}/{c['kind']}" for c in cases})
+    return {"outcome": "resend:" + ",".join(tags) + ":" + "+".join(sorted(outs)), "violations": J.viol, "counters": J.cnt, "emitter": J.emitter,
+            "wire_digest": J.h.hexdigest()}
+
+
+# ---------------------------------------------------------------------------
+# (a') payload-less success responses: every emission owns its (empty) result
+# ---------------------------------------------------------------------------
+EMPTY_EMITTERS = ["create_response(id)", "create_response(id, None)", "JSONRPCMessage.create_response(id)",
+                  "JSONRPCMessage.create_response(id, None)", "JSONRPCMessage.create_response(id, {})",
+                  "server:ping", "server:ping(other server object)", "server:notifications/initialized-with-id", "ProtocolHandler.create_response(id, {})"]
+
+
+def _emit_empty(which: str, rid: Any, servers: Dict[str, Any]):
+    from chuk_mcp.protocol.messages import json_rpc_message as jm
+
+    if which == "create_response(id)":
+        return jm.create_response(rid)
+    if which == "create_response(id, None)":
+        return jm.create_response(rid, None)
+    if which == "JSONRPCMessage.create_response(id)":
+        return jm.JSONRPCMessage.create_response(rid)
+    if which == "JSONRPCMessage.create_response(id, None)":
+        return jm.JSONRPCMessage.create_response(rid, None)
+    if which == "JSONRPCMessage.create_response(id, {})":
+        return jm.JSONRPCMessage.create_response(rid, {})
+    if which == "ProtocolHandler.create_response(id, {})":
+        return servers.setdefault("a", _make_server()).protocol_handler.create_response(rid, {})
+    key = "b" if "other server" in which else "a"
+    srv = servers.get(key) or servers.setdefault(key, _make_server())
+    method = "ping" if "ping" in which else "notifications/initialized"
+    msg = jm.parse_message({"jsonrpc": "2.0", "id": rid, "method": method})
+    out, _sid = _run_coro(srv.protocol_handler.handle_message(msg))
+    return out
+
+
+def _run_empty(cfg) -> Dict[str, Any]:
+    first, second = EMPTY_EMITTERS[cfg["first"]], EMPTY_EMITTERS[cfg["second"]]
+    J = Judge("payload-less-response:" + second)
+    servers: Dict[str, Any] = {}
+    touched: List[tuple] = []
+    key = f"annotated-by-holder-{cfg['first']}-{cfg['second']}"
+    try:
+        for rid in (0, "x"):
+            J.count("cases")
+            ctx = f"{first} emitted, its holder writes result[{key!r}] = {{'nested': [1]}}, then {second} emits (id {_show(rid)})"
+            m1 = _emit_empty(first, rid, servers)
+            r1 = getattr(m1, "result", None)
+            J.emitted(m1, "result", {"id": rid, "result": {}}, "first emission of: " + ctx)
+            if not isinstance(r1, dict):
+                J.bad("wrong-kind", f"first emission carries result {r1!r}; {ctx}", got=type(r1).__name__)
+                continue
+            r1[key] = {"nested": [1]}
+            touched.append((r1, key))
+            m2 = _emit_empty(second, rid, servers)
+            r2 = getattr(m2, "result", None)
+            before = len(J.viol)
+            J.emitted(m2, "result", {"id": rid, "result": {}}, "second emission of: " + ctx)
+            for v in J.viol[before:]:
+                v["sig"] = {**v["sig"], "scenario": "earlier-result-was-written-to", "first": first}
+            if r2 is r1:
+                J.bad("emissions-share-one-result-object", f"the two emitted results are the same object; {ctx}", first=first)
+            r1.pop(key, None)
+    finally:
+        # undo this execution's writes, so that an object shared behind the scenes cannot leak into the next execution
+        for r, k in touched:
+            r.pop(k, None)
+    return {"outcome": "empty:" + ("ok" if not J.viol else "polluted"), "violations": J.viol, "counters": J.cnt, "emitter": J.emitter,
+            "wire_digest": J.h.hexdigest()}
+
 
 def _run_stdio_own(cfg) -> Dict[str, Any]:
     from chuk_mcp.transports.stdio.stdio_client import StdioClient
@@ -1448,6 +1637,10 @@ def _run_part(cfg: Dict[str, Any]) -> Dict[str, Any]:
         return _run_rejection(cfg)
     if part == "raw":
         return _run_raw(cfg)
+    if part == "resend":
+        return _run_resend(cfg)
+    if part == "empty":
+        return _run_empty(cfg)
     if part == "progress":
         return _run_progress(cfg)
     if part == "posts":
@@ -1645,6 +1838,18 @@ def run(tier: str, only=None) -> core.Result:
     samples += [{"part": "d-transport-wire-forms", "index": i, "case": {"transport": POST_TRANSPORTS[cfgs[i]["transport"]], "way": WAYS[cfgs[i]["way"]],
                  "id": _show(pids[cfgs[i]["id"]])}} for i in (0, len(cfgs) // 2, len(cfgs) - 1)]
     sched.debug_pass(res, "d-transport-wire-forms", RUN, cfgs, every=7)
+    nres = len(_resend_cases())
+    cfgs = [{"part": "resend", "lo": lo, "hi": min(nres, lo + 9)} for lo in range(0, nres, 9)]
+    out = explorer.explore(RUN, cfgs)
+    sched.absorb(res, "d-stdio-same-object-sent-again", RUN, out, cfgs)
+    samples += [{"part": "d-stdio-same-object-sent-again", "index": i, "case": _resend_cases()[i]} for i in (0, nres // 2, nres - 1)]
+    sched.debug_pass(res, "d-stdio-same-object-sent-again", RUN, cfgs, every=3)
+    cfgs = [{"part": "empty", "first": a, "second": b} for a in range(len(EMPTY_EMITTERS)) for b in range(len(EMPTY_EMITTERS))]
+    out = explorer.explore(RUN, cfgs)
+    sched.absorb(res, "a-payload-less-responses-own-their-result", RUN, out, cfgs, min_outcomes=1)
+    samples += [{"part": "a-payload-less-responses-own-their-result", "index": i,
+                 "case": {"first": EMPTY_EMITTERS[cfgs[i]["first"]], "second": EMPTY_EMITTERS[cfgs[i]["second"]]}} for i in (0, len(cfgs) // 2, len(cfgs) - 1)]
+    sched.debug_pass(res, "a-payload-less-responses-own-their-result", RUN, cfgs, every=5)
     cfgs = [{"part": "stdio-own", "version": v, "shape": si} for v in ("2025-06-18", "2025-06-19", "2030-01-01")
             for si in range(len(PEER_SHAPES))]
     out = explorer.explore(RUN, cfgs)
@@ -1730,6 +1935,11 @@ def run(tier: str, only=None) -> core.Result:
         "token. What the three transports put on the wire (stdio stdin bytes, Streamable-HTTP POST body, legacy SSE POST body via the scripted httpx seam) for "
         "messages built 10 ways (create_*, unified classmethods, classes with and WITHOUT jsonrpc=, unified class with and without, parse_message, model_validate "
         "with and without the member, plain dict) x 4 kinds x 5 ids x 32 payloads: the bytes must be a valid envelope (jsonrpc exactly '2.0') with the given members. "
+        "the same object handed to the stdio write stream again after a change (typed / unified / dict x 4 kinds x id value, id JSON type, method, params member, "
+        "params removed, result, error x sequences A,A' / A,B,A' / A,A,A'): every line must equal the object as it is when handed over. Payload-less success "
+        "responses from 9 emitters (create_response with and without None, the unified classmethod three ways, server ping on two server objects, "
+        "initialized-with-id, ProtocolHandler.create_response) in every ordered pair: the holder of the first writes into its result, the second emission must be {} "
+        "again and must not be the same object. "
         "the lines the stdio client writes on its own: at 3 versions without batching, every batch of 1-2 members (request / response / error / bare object, "
         "a non-object in front) whose ids range over every JSON type (1.5, -0.5, true, false, null, [], [7], {}, {id:1}, strings, 0, 7, 2^64, absent) - every line "
         "written to the child must pass the envelope reference and the library's own parser. (f) JSONRPCMessage.to_specific_type / from_specific_type and "
